@@ -182,6 +182,9 @@ def classify(prop, cases_file, model_file):
                 # up to the first step the property leaves open ("?")
                 impl_p, spec_p = project_prog(impl, spec)
                 model_p = project_prog(model, spec)[0] if has_m else None
+            elif has_s and ("..." in spec or "=*" in spec):
+                impl_p, spec_p = project_tokens(impl, spec)
+                model_p = project_tokens(model, spec)[0] if has_m else None
             else:
                 impl_p, spec_p, model_p = impl, spec, model
             rec = dict(line=lineno, case=case, impl=impl, model=model, spec=spec, cls=cls)
@@ -229,6 +232,20 @@ def project_prog(obs, spec):
     return " # ".join(oo[:n]), " # ".join(so[:n])
 
 
+def project_tokens(obs, spec):
+    """Token-wise projection: a spec ending in '...' speaks about a prefix only; a token 'x=*' is a wildcard."""
+    st = spec.split(" ")
+    prefix = st and st[-1] == "..."
+    if prefix:
+        st = st[:-1]
+    ot = obs.split(" ")
+    if prefix:
+        ot = ot[:len(st)]
+    if len(ot) == len(st):
+        ot = [s if s.endswith("=*") and o.split("=")[0] == s.split("=")[0] else o for o, s in zip(ot, st)]
+    return " ".join(ot), " ".join(st)
+
+
 def write_replay(prop, tag, recs, note=""):
     d = os.path.join(VERIF, "evidence", "replays")
     os.makedirs(d, exist_ok=True)
@@ -248,20 +265,31 @@ def shrink_key(rec):
 def decide(prop, res, extra_violation_lines=None):
     """Print KNOWN-FINDING / VIOLATION lines; return the number of violations."""
     known = load_known()
-    listed = {(k["property"], k["class"]): k for k in known.get("findings", [])}
+    def lookup(cls):
+        for k in known.get("findings", []):
+            if (prop in k["properties"] or "*" in k["properties"]) and re.search(k["class_re"], cls):
+                return k
+        return None
     nviol = 0
     lines = []
+    kf = {}
     for cls, recs in sorted(res["known"].items()):
         recs.sort(key=shrink_key)
-        if (prop, cls) in listed:
-            k = listed[(prop, cls)]
-            lines.append("KNOWN-FINDING: property=%s class=%s %s [%d cases this run; smallest: %s => %s, demanded %s]"
-                         % (prop, cls, k.get("what", ""), len(recs), recs[0]["case"], recs[0]["impl"], recs[0]["spec"]))
+        k = lookup(cls)
+        if k is not None:
+            kf.setdefault(k["id"], [k, 0, recs[0]])
+            kf[k["id"]][1] += len(recs)
+            if shrink_key(recs[0]) < shrink_key(kf[k["id"]][2]):
+                kf[k["id"]][2] = recs[0]
         else:
             rp = write_replay(prop, "finding-" + re.sub(r"[^A-Za-z0-9_.-]", "_", cls), recs,
                               "implementation contradicts the property on these inputs; class not listed in known_findings.json")
             lines.append("VIOLATION property=%s replay=%s" % (prop, rp))
             nviol += 1
+    for fid, (k, n, r0) in sorted(kf.items()):
+        lines.append("KNOWN-FINDING: property=%s %s %s [%d cases this run; smallest: %s]"
+                     % (prop, fid, k.get("what", ""), n, r0["case"][:200]))
+    res["known_ids"] = {fid: n for fid, (k, n, r0) in kf.items()}
     if res["violations"]:
         recs = sorted(res["violations"], key=shrink_key)
         rp = write_replay(prop, "violation", recs, "IMPL differs from MODEL (and from SPEC where one exists) on these inputs")
@@ -293,6 +321,7 @@ def write_evidence(prop, tier, seed, t0, res, obl, nviol, extra=None, assumption
         case_kinds=res["kinds"], impl_outcomes=res["outcomes"], in_theorem_domain=res["in_domain"],
         agree_with_model=res["ok"],
         known_finding_cases={k: len(v) for k, v in res["known"].items()},
+        known_findings_reproduced=res.get("known_ids", {}),
         finding_no_longer_reproduces={k: len(v) for k, v in res["fixed_seen"].items()},
         model_drift_cases=len(res["drift"]), violation_cases=len(res["violations"]),
     )
